@@ -15,7 +15,7 @@ from ..rules import norm
 META = {
     "level": "other",
     "technique": "HIR pipeline-shape allow-list + closure-capture interior-mutability walk + who-may-call",
-    "claim": "Decides schedule-independence structurally: all rayon pipelines reachable in the parallel-extraction modules are indexed, order-preserving and collect into Vec; no closure given to rayon (nor anything it reaches in wow-mpq) shares interior-mutable state or a cloned file cursor; the skip-errors arms have the right early-exit shape. Complete modulo the trusted base; does not run threads. Also: the request list is partitioned completely (no remainder-dropping chunking / take / skip / Option-flattening) and the parallel modules construct no failure of their own. Wave 6: result vectors keep request order (no sort / regroup of the work list between request and return). Wave 7: the per-name loops of the parallel modules have no continue / break / conditional push (a skipped iteration is a name without a slot).",
+    "claim": "Decides schedule-independence structurally: all rayon pipelines reachable in the parallel-extraction modules are indexed, order-preserving and collect into Vec; no closure given to rayon (nor anything it reaches in wow-mpq) shares interior-mutable state or a cloned file cursor; the skip-errors arms have the right early-exit shape. Complete modulo the trusted base; does not run threads. Also: the request list is partitioned completely (no remainder-dropping chunking / take / skip / Option-flattening) and the parallel modules construct no failure of their own. Wave 6: result vectors keep request order (no sort / regroup of the work list between request and return). Wave 7: the per-name loops of the parallel modules have no continue / break / conditional push (a skipped iteration is a name without a slot). Wave 8: hand-cut batches tile the request (list lengths 0..=24 and around every numeric threshold, all small sizes); ParallelConfig setters keep the other settings.",
     "note": "Trusted: rayon's documented order preservation of indexed collect; rustc's Send/Sync/Fn checking (no unsynchronised mutation of captures); the deep interior-mutability walk expands workspace ADTs only.",
     "assumptions": ["rayon indexed `collect` preserves input order", "Archive::read_file is a function of (file bytes, name) — C01/C05 territory"],
     "explanation": "Enumerates every rayon method chain (typed HIR) in single_archive_parallel.rs, parallel.rs and patch_chain.rs, every closure passed to rayon with its captures, all statics of wow-mpq, and the skip_errors conditionals.",
